@@ -490,7 +490,14 @@ def check_scalars_verbatim(ctx, rule):
                 ctx.bad(rule, inst, 'the %s built by %s is not the number read from the wire but %s: some wire values decode to a different number / bit pattern (and re-encode to different bytes)'
                         % (st['rv']['var'], p.rsplit('::', 1)[1], describe(B, c)), ctx.where(B, bb), key='PROV:%s:%s-not-verbatim' % (p, st['rv']['var']))
             else:
-                ctx.undecided(rule, inst, 'origin of the value not recognised: %s' % describe(B, c))
+                # a value that is EITHER what was read OR a constant chosen by a test on it (`if v == 0.0 { 0.0 } else { v }`): a normalisation
+                defs_ = B.defs().get(cur[1], []) if isinstance(cur, tuple) and cur and cur[0] == 'local' else []
+                consts_ = [d_ for d_ in defs_ if d_[0] == 's' and d_[3]['rv']['k'] == 'use' and d_[3]['rv']['op'].get('k') == 'c']
+                if len(defs_) >= 2 and consts_:
+                    ctx.bad(rule, inst, 'the %s built by %s is replaced by a constant on one branch (a "normalisation" of what was read): some wire values decode to a different bit pattern and re-encode to different bytes'
+                            % (st['rv']['var'], p.rsplit('::', 1)[1]), ctx.where(B, bb), key='PROV:%s:%s-not-verbatim' % (p, st['rv']['var']))
+                else:
+                    ctx.undecided(rule, inst, 'origin of the value not recognised: %s' % describe(B, c))
     return n
 
 
